@@ -249,6 +249,15 @@ func init() {
 			if !isLazyRecv(fr, args[1]) {
 				return fr.i.callReal(fr, n, args)
 			}
+			// go/types' size computation is known to give up on some types built from
+			// type parameters with panic("assertion failed") (go-critic issue 1354):
+			// with the sizeofpanic bound set, that is one of the stub's behaviours
+			if fr.i.path.ex.opts.bound("sizeofpanic", 1) > 0 {
+				id := fr.i.objID(args[1])
+				if fr.i.truth(fr.i.memoBool("SizeofPanics(" + id + ")")) {
+					panic(targetPanic{v: iface{t: types.Typ[types.String], v: "assertion failed"}, stack: fr.i.stack()})
+				}
+			}
 			return fr.i.memoInt("Sizeof("+fr.i.objID(args[1])+")", 0, 1<<40, types.Int64)
 		})
 	}
